@@ -148,7 +148,29 @@ func calendarSelfTest() error {
 // ---------------------------------------------------------------------------------------------
 // zone worker
 
+// prelude: the library is used (every date and date-time entry point, a few days of 2023/2024) while
+// the process zone is `after`; the caller then sets time.Local to another zone. Whatever the library
+// derived from the zone at first use must not outlive the change.
+func prelude(r *vk.Run, after string) (viol []found, evals int64, err error) {
+	loc, err := loadLocation(after)
+	if err != nil {
+		return nil, 0, err
+	}
+	time.Local = loc
+	c := newCtx(r, &zoneRef{name: after, loc: loc})
+	var out zoneOut
+	lo, hi := ordinal(2023, 12, 1), ordinal(2024, 3, 31)
+	c.phaseB(lo, hi, nil, &out)
+	c.phaseC(lo, hi, []int64{ordinal(2024, 1, 15)})
+	c.stopListener()
+	return c.found(), c.cnt.Evals, nil
+}
+
 func zoneWorker(r *vk.Run, name string, withTrace bool) {
+	after := ""
+	if i := strings.Index(name, ">"); i >= 0 {
+		after, name = name[:i], name[i+1:]
+	}
 	start := time.Now()
 	out := zoneOut{Zone: name, NoInstant: []string{}, Machinery: []string{}, Samples: []any{}, Violations: []found{}}
 	var c *ctx
@@ -170,9 +192,26 @@ func zoneWorker(r *vk.Run, name string, withTrace bool) {
 		out.Machinery = append(out.Machinery, fmt.Sprintf("zone %s does not load: %v", name, err))
 		emit()
 	}
+	var pre []found
+	var preEvals int64
+	if after != "" {
+		var err error
+		if pre, preEvals, err = prelude(r, after); err != nil {
+			out.Machinery = append(out.Machinery, fmt.Sprintf("zone %s does not load: %v", after, err))
+			emit()
+		}
+	}
 	time.Local = loc // the configuration under test
 	c = newCtx(r, &zoneRef{name: name, loc: loc})
+	c.after = after
+	c.cnt.Evals += preEvals
+	for _, f := range pre {
+		c.violation(f.Key, "(during the prelude in the first zone) "+f.What, f.Case)
+	}
 	lo, hi := tierRange(r)
+	if after != "" {
+		lo, hi = ordinal(1990, 1, 1), ordinal(2040, 12, 31)
+	}
 
 	var flagged []int64
 	panicked, msg, frame := vk.Guard(func() {
@@ -523,8 +562,16 @@ func replay(r *vk.Run) {
 		r.Machinery("zone %s does not load: %v", k.Zone, err)
 		r.Finish()
 	}
+	if k.After != "" {
+		fmt.Printf("prelude: every date entry point with time.Local = %s\n", k.After)
+		if _, _, err := prelude(r, k.After); err != nil {
+			r.Machinery("zone %s does not load: %v", k.After, err)
+			r.Finish()
+		}
+	}
 	time.Local = loc
 	c := newCtx(r, &zoneRef{name: k.Zone, loc: loc})
+	c.after = k.After
 	c.verbose = true
 	fmt.Printf("replaying %s via %s with time.Local = %s\n", k.Fn, k.Via, k.Zone)
 	panicked, msg, frame := vk.Guard(func() {
@@ -600,6 +647,25 @@ func main() {
 			}
 		}
 	}
+
+	// zone changes inside one process: the library is first used in zone A, then time.Local is set to
+	// zone B and B's enumeration (1990..2040) runs; every ordered pair over a reduced menu
+	nPlain := len(zones)
+	{
+		first := []string{"UTC", "Etc/GMT+5", "Asia/Kolkata", "America/Santiago", "Pacific/Apia", "Europe/London"}
+		second := []string{"UTC", "Etc/GMT-14", "America/Santiago", "Pacific/Apia", "Europe/London", "America/Havana", "Asia/Beirut", "Africa/Cairo"}
+		if r.Thorough() {
+			second = append(second, "America/Asuncion", "Asia/Amman", "America/Sao_Paulo", "Atlantic/Azores", "Asia/Tehran", "Pacific/Kiritimati", "Australia/Lord_Howe")
+		}
+		for _, a := range first {
+			for _, b := range second {
+				if a != b && listed[a] && listed[b] {
+					zones = append(zones, a+">"+b)
+				}
+			}
+		}
+	}
+	r.Set("zone_change_pairs", len(zones)-nPlain)
 
 	// one child process per zone, 16 at a time; the TZ validation child of a quick zone runs in
 	// the same slot right after its zone worker
@@ -735,9 +801,9 @@ func main() {
 	hy, hm, hd := fromOrdinal(hi)
 	r.Count(total.Evals)
 	r.Distinct(distinct)
-	r.Rule(fmt.Sprintf("zones: %d (one child process each, time.Local = the loaded location); per zone: (a) ToDate on every day %s..%s; (b) every day whose 00:00 is missing or whose offset changes within the day (found by a time.Date scan) +-2 and the 1st/15th/last of every month: ToDate, ParseDate, Date wire decode (direct, codec value field, codec pointer field), Date JSON decode, and for years %d..%d the two-digit SystemDate decode and the SystemDate+SystemTime recombination through GetStatus and Listen at %d times of day (with a four-digit event timestamp alongside), also through a client whose controller is configured with a zone of its own (America/Santiago, or Europe/London when that is the process zone) incl. every 10th civil minute within 2.5 h of that zone's offset changes 2023..2025; (c) DateTime wire decode around every flagged day f: up to year %d every whole minute of f-1, f, f+1 plus second 59 of every minute of f; up to year %d every whole minute of f; later every half hour of f; and every hour of every day of 2024. distinct_nontrivial = judged (function, civil input) cases summed over zones with pairwise different midnight-offset histories over the range (aliases counted once); evaluations counts every library call incl. exempt ones",
-		len(zones), refDateText(ly, lm, ld), refDateText(hy, hm, hd), sysYearLo, sysYearHi, len(statusTimes), minuteYearFull, minuteYearMax))
-	r.Set("zones", len(zones))
+	r.Rule(fmt.Sprintf("zones: %d (one child process each, time.Local = the loaded location), plus zone changes inside one process (every entry point first used in zone A, then time.Local set to zone B and B's enumeration for 1990..2040: every ordered pair of 6 first x 8 (thorough 15) second zones); per zone: (a) ToDate on every day %s..%s; (b) every day whose 00:00 is missing or whose offset changes within the day (found by a time.Date scan) +-2 and the 1st/15th/last of every month: ToDate, ParseDate, Date wire decode (direct, codec value field, codec pointer field), Date JSON decode, and for years %d..%d the two-digit SystemDate decode and the SystemDate+SystemTime recombination through GetStatus and Listen at %d times of day (with a four-digit event timestamp alongside), also through a client whose controller is configured with a zone of its own (America/Santiago, or Europe/London when that is the process zone) incl. every 10th civil minute within 2.5 h of that zone's offset changes 2023..2025; (c) DateTime wire decode around every flagged day f: up to year %d every whole minute of f-1, f, f+1 plus second 59 of every minute of f; up to year %d every whole minute of f; later every half hour of f; and every hour of every day of 2024. distinct_nontrivial = judged (function, civil input) cases summed over zones with pairwise different midnight-offset histories over the range (aliases counted once); evaluations counts every library call incl. exempt ones",
+		nPlain, refDateText(ly, lm, ld), refDateText(hy, hm, hd), sysYearLo, sysYearHi, len(statusTimes), minuteYearFull, minuteYearMax))
+	r.Set("zones", nPlain)
 	r.Set("zones_distinct_histories", len(seen))
 	r.Set("zones_with_skipped_midnight", skipping)
 	r.Set("flagged_zone_days", total.Flagged)
